@@ -663,9 +663,9 @@ func (w *world) pipeline(c *kit.Ctx, results sched.Results, kind string, maxType
 }
 
 func partSolve(c *kit.Ctx) {
-	nSingle, nBatch := 260, 60
+	nSingle, nBatch := 220, 60
 	if c.Thorough() {
-		nSingle, nBatch = 1300, 300
+		nSingle, nBatch = 1100, 300
 	}
 	// corpus: the smallest input on which the strict reading fails (kept first, see Properties/C19.v)
 	corpusRelax(c)
@@ -674,6 +674,19 @@ func partSolve(c *kit.Ctx) {
 		w := newWorld(r, true)
 		pod, sp := genPod(r, w, 0, r.Chance(1, 2))
 		runSolve(c, r, w, []*corev1.Pod{pod}, []sPod{sp}, "single", r.Range(1, 4))
+		// second pass over the SAME provider objects after offering availability changed (the first pass has used
+		// them: fits()/Allocatable precompute per-type data once)
+		if r.Chance(1, 3) {
+			flips := 0
+			for k := range w.pools {
+				its := w.cp.InstanceTypesForNodePool[w.pools[k].Name]
+				flips += flipAvailability(r, its, nil)
+				w.pools[k].Types = jITs(its, func(string) bool { return false })
+			}
+			if flips > 0 {
+				runSolve(c, r, w, []*corev1.Pod{pod}, []sPod{sp}, "second-pass", r.Range(1, 3))
+			}
+		}
 	}
 	for i := 0; i < nBatch; i++ {
 		r := c.Rand.Fork()
